@@ -277,6 +277,15 @@ theorem areIsomorphic_relabel {H : Type} {ops : HashOps H} (hx : ExactOps ops) {
     (hn ▸ corr_zero n π hp.lt) (by simp [hn]) (by simp [hn])
   exact this
 
+/-- **areIsomorphic_relabel_any_storage**. The same with the renumbered copy stored in any row order (what the
+relation check feeds: scipy's `P A Pᵀ` has re-sorted rows). -/
+theorem areIsomorphic_relabel_any_storage {H : Type} {ops : HashOps H} (hx : ExactOps ops) {n : Nat} {π πinv : Nat → Nat}
+    (hp : IsPerm n π πinv) (adj adj' : List (List Nat)) (hn : adj.length = n) (hpos : 0 < nnz adj) (hwf : WFAdj adj)
+    (hs : SameRows (relabelAdj π πinv adj) adj') (maxIter : Option Nat) :
+    areIsomorphic ops adj adj' maxIter = some true := by
+  rw [← areIsomorphic_sameRows hx adj hs maxIter]
+  exact areIsomorphic_relabel hx hp adj hn hpos hwf maxIter
+
 /-- Non-vacuity: the house graph and its copy renumbered by the rotation u ↦ u+1 mod 5. -/
 example : areIsomorphic exactOps [[1, 4], [0, 2, 4], [1, 3], [2, 4], [0, 1, 3]]
     (relabelAdj (fun u => (u + 1) % 5) (fun u => (u + 4) % 5) [[1, 4], [0, 2, 4], [1, 3], [2, 4], [0, 1, 3]]) none
